@@ -389,6 +389,14 @@ ITEMS = [
             // and the writer thread is woken
             unparked(self.unparker),                                                                    // OBL push_unparks
          """),
+    dict(kind="struct", file=BG, name="BackgroundQueue", attrs=["#[verifier::reject_recursive_types(T)]"]),
+    dict(kind="fn", file=BG, impl=r"^impl < T : Entry \+ Send \+ 'static > EntrySink < T > for BackgroundQueue < T >$", name="append", label="BackgroundQueue::append",
+         impl_header_override="impl<T> BackgroundQueue<T>", sig_replace=[("fn append", "pub fn append")],
+         ensures="""
+            // C01/C09: an append on any handle is one push onto the shared queue
+            pushed(self.0.queue, ghost_id(entry), true) || pushed(self.0.queue, ghost_id(entry), false),   // OBL append_is_one_push
+            unparked(self.0.unparker),
+         """),
     dict(kind="fn", file=BG, impl=r"^impl Drop for BackgroundQueueJoinHandle$", name="drop",
          rules={"R1": 2, "r12_join_unwrap": 1}, extra_rewrites=[r12_join_unwrap, r10_now_ge, r13_now_plus], unpinned=["r10_now_ge", "r13_now_plus"],
          impl_header_override="impl BackgroundQueueJoinHandle",
